@@ -1208,6 +1208,131 @@ def _bound_names(fn):
     return out
 
 
+
+# ------------------------------------------------------------------------------------------ VR: vocabulary restoration
+def _local_names(fn):
+    """names bound by stores / loop and comprehension targets inside fn, minus the parameters of fn and of nested functions"""
+    params = set()
+    for f in ast.walk(fn):
+        if isinstance(f, (ast.FunctionDef, ast.AsyncFunctionDef, ast.Lambda)):
+            a = f.args
+            params |= {x.arg for x in a.posonlyargs + a.args + a.kwonlyargs}
+            if a.vararg:
+                params.add(a.vararg.arg)
+            if a.kwarg:
+                params.add(a.kwarg.arg)
+    out = set()
+    for n in ast.walk(fn):
+        if isinstance(n, ast.Name) and isinstance(n.ctx, (ast.Store, ast.Del)):
+            out.add(n.id)
+    return out - params
+
+
+def def_signatures(fn):
+    """[(local name, (sorted definition signatures))] in order of first binding.  A signature is the kind of the binding plus the
+    text of the defining expression with every local name written `_`, so that it is invariant under renaming of locals."""
+    loc = _local_names(fn)
+
+    class W(ast.NodeTransformer):
+        def visit_Name(self, n):
+            return ast.copy_location(ast.Name(id='_', ctx=n.ctx), n) if n.id in loc else n
+
+    def text(e):
+        try:
+            return ast.unparse(W().visit(copy.deepcopy(e)))
+        except Exception:
+            return '?'
+    sigs, order = {}, []
+
+    def add(name, sig):
+        if name not in loc:
+            return
+        if name not in sigs:
+            sigs[name] = []
+            order.append(name)
+        sigs[name].append(sig)
+
+    def targets(t, kind, vtxt):
+        if isinstance(t, ast.Name):
+            add(t.id, f'{kind}:{vtxt}')
+        elif isinstance(t, (ast.Tuple, ast.List)):
+            for i, x in enumerate(t.elts):
+                targets(x.value if isinstance(x, ast.Starred) else x, f'{kind}{i}/{len(t.elts)}', vtxt)
+    # document order (pre-order, fields in source order)
+    stack = [fn]
+    while stack:
+        n = stack.pop()
+        if isinstance(n, ast.Assign):
+            for t in n.targets:
+                if isinstance(n.value, (ast.Tuple, ast.List)) and isinstance(t, (ast.Tuple, ast.List)) and len(t.elts) == len(n.value.elts):
+                    for x, v in zip(t.elts, n.value.elts):
+                        targets(x, 'a', text(v))
+                else:
+                    targets(t, 'a', text(n.value))
+        elif isinstance(n, ast.AnnAssign) and n.value is not None:
+            targets(n.target, 'a', text(n.value))
+        elif isinstance(n, ast.AugAssign):
+            targets(n.target, 'g' + type(n.op).__name__, text(n.value))
+        elif isinstance(n, (ast.For, ast.AsyncFor)):
+            targets(n.target, 'f', text(n.iter))
+        elif isinstance(n, ast.comprehension):
+            targets(n.target, 'c', text(n.iter))
+        elif isinstance(n, ast.NamedExpr):
+            targets(n.target, 'w', text(n.value))
+        elif isinstance(n, (ast.With, ast.AsyncWith)):
+            for it in n.items:
+                if it.optional_vars is not None:
+                    targets(it.optional_vars, 'h', text(it.context_expr))
+        stack.extend(reversed(list(ast.iter_child_nodes(n))))
+    return [(nm, tuple(sorted(sigs[nm]))) for nm in order]
+
+
+class _RenameAll(ast.NodeTransformer):
+    def __init__(self, m):
+        self.m = m
+
+    def visit_Name(self, n):
+        if n.id in self.m:
+            n.id = self.m[n.id]
+        return n
+
+    def visit_Nonlocal(self, n):
+        n.names = [self.m.get(x, x) for x in n.names]
+        return n
+
+    visit_Global = visit_Nonlocal
+
+
+def restore_vocabulary(fn, refsigs):
+    """Undo a renaming of local variables: a local that the reference tree does not have in this function is given the name of a
+    reference local that is missing now and was defined in the same way (same kinds of bindings, same defining expressions up to
+    the names of locals).  A consistent renaming of a local is an equivalence whatever name is chosen; the reference table only
+    proposes the name.  Returns the mapping applied."""
+    if not refsigs:
+        return {}
+    cur = def_signatures(fn)
+    curd = dict(cur)
+    refd = dict(refsigs)
+    lost = [nm for nm, _ in refsigs if nm not in curd]
+    new = [nm for nm, _ in cur if nm not in refd]
+    if not lost or not new:
+        return {}
+    bound = _bound_names(fn)
+    by_sig = {}
+    for nm in lost:
+        by_sig.setdefault(refd[nm], []).append(nm)
+    mapping = {}
+    for nm in new:
+        cands = by_sig.get(curd[nm])
+        if cands:
+            target = cands.pop(0)          # ties are paired in order of first binding
+            if target not in bound:
+                mapping[nm] = target
+    if mapping:
+        _RenameAll(mapping).visit(fn)
+    return mapping
+
+
 ALL_L2 = frozenset({'GN', 'PN', 'W', 'IV1', 'RG1', 'C1', 'E1', 'S1', 'R1', 'U1', 'G1', 'P5', 'L1', 'F1', 'M1', 'II', 'B1', 'P3', 'P3B'})
 # second-stage passes that are switched on (see DESIGN.md section 3: a pass is enabled only when every rule has been
 # confirmed to be quiet on the reference tree with it and the seeded corpus is still detected)
@@ -1222,13 +1347,15 @@ def enabled_passes():
     return frozenset(x for x in v.split(',') if x) & ALL_L2 if v != 'all' else ALL_L2
 
 
-def canon_function(fn_node, level=None, protocol=False, vocab=None):
+def canon_function(fn_node, level=None, protocol=False, vocab=None, refsigs=None):
     """Return a canonicalised deep copy of a FunctionDef / AsyncFunctionDef.
 
     protocol=True additionally applies the passes the small message-layer functions were written against
     (alias inlining of arbitrary attribute chains, early-return nesting)."""
     fn = copy.deepcopy(fn_node)
     en = enabled_passes() if level is None else (ALL_L2 if level >= 2 else frozenset())
+    if refsigs:
+        restore_vocabulary(fn, refsigs)        # VR: renamed locals get their reference names back
     if vocab is not None and not (vocab - _bound_names(fn)):
         # (a function that lost a name of the reference vocabulary may have had a temporary *renamed*: the rules follow renamed
         # temporaries through their definitions, so the function is left as written)
